@@ -271,6 +271,8 @@ def world_ab(
     handlers: Optional[Dict[str, CatchErrorHandler]] = None,
     handler_for_step: Optional[Dict[str, str]] = None,
     rc: Optional[Dict[str, int]] = None,
+    b_accepts: Optional[List[type]] = None,
+    q_event: Optional[Event] = None,
 ) -> BrokerState:
     """Step "a": accepts EvA, ``nw`` workers (<=3), busy slots b0..b2, ``q`` queued EvA attempts, optional waiter
     "w1" (waiting for EvC, replaying EVA), collect buffer "buf" with ``buf_live`` EvB events of which the running
@@ -290,7 +292,7 @@ def world_ab(
         for i in busy_ids(3, (b0, b1, b2))
     ]
     ws_a = worker_state(cfg_a, [EventAttempt(event=EVA) for _ in range(q)], ips, live, w)
-    cfg_b = step_config([EvB, StartEvent], 1, None)
+    cfg_b = step_config(list(b_accepts) if b_accepts is not None else [EvB, StartEvent], 1, None)
     ws_b = worker_state(
         cfg_b,
         [EventAttempt(event=EVB) for _ in range(b_q)],
